@@ -124,7 +124,7 @@ let check_sql (which : string) (x : qobs) input (sql : string) (nparams : int op
   else if not (valid_utf8 sql) then fail "C02" (which ^ ":SQL-text-is-not-valid-UTF-8") input [("sql", sql)];
   let (text, n) = match nparams with Some _ -> number_placeholders sql | None -> (sql, 0) in
   match pg_read (chars_of_string text) with
-  | None -> fail "C02" (which ^ ":not-one-boolean-expression-for-PostgreSQL") input [("sql", sql)]
+  | None -> fail "C02" (which ^ ":not-one-boolean-expression-for-PostgreSQL") input [("sql", sql)]; None
   | Some a ->
       nontrivial "C02";
       if not (sql_safe a) then fail "C02" (which ^ ":construct-outside-the-allowed-set") input [("sql", sql)];
@@ -139,7 +139,8 @@ let check_sql (which : string) (x : qobs) input (sql : string) (nparams : int op
         if not (List.mem s plain || List.mem s pats) then fail "C02" (which ^ ":string-constant-is-not-a-value-of-the-query") input [("sql", sql); ("constant", s)]) (sql_strs a);
       (match nparams with
        | Some k -> if sql_params a <> k || n <> k then fail "C02" (which ^ ":placeholders-as-read-by-PostgreSQL-differ-from-parameters") input ([("sql", sql); ("params", string_of_int k)] @ kcls)
-       | None -> ())
+       | None -> ());
+      Some (sql_cols a)
 
 (* ---------- C04 (a), (b): placeholders and parameters ---------- *)
 let rec values_lr (e : expr) : value list =   (* the query's values in left-to-right order, as parameters: patterns translated, unbounded ends omitted, columns excluded *)
@@ -288,6 +289,9 @@ let mk_rows (e : expr) : ((string * rval) list list) option =
   let fields = List.sort_uniq compare (List.map fst fc) in
   let per_field f =
     let cs = List.filter_map (fun (g, x) -> if g = f then Some x else None) fc in
+    (* a field with very many constants (a long value list): probes from a spread subset of them - first, last and a stride *)
+    let cs = let n = List.length cs in
+      if n <= 96 then cs else List.filteri (fun i _ -> i < 24 || i >= n - 24 || i mod (n / 48 + 1) = 0) cs in
     let nums = List.filter_map (function `C (RNum q) -> Some q | _ -> None) cs in
     let strs = List.filter_map (function `C (RStr s) -> Some (string_of_chars s) | _ -> None) cs in
     let pats = List.filter_map (function `P p -> Some p | _ -> None) cs in
@@ -298,12 +302,15 @@ let mk_rows (e : expr) : ((string * rval) list list) option =
   if List.exists (fun c -> c = None) cols || fields = [] then None else begin
     let cols = List.map (function Some c -> c | None -> []) cols in
     (* cartesian product, capped: beyond the cap take a deterministic stride through the product *)
-    let total = List.fold_left (fun n c -> n * List.length c) 1 cols in
-    let cap = 300 in
+    let total = List.fold_left (fun n c -> if n > 1_000_000_000 then n else n * List.length c) 1 cols in   (* saturating *)
+    (* 300 rows; fewer for trees with very many constants (evaluating a row costs their number, squared for placeholders) *)
+    let cap = max 8 (min 300 (10000 / (1 + List.length fc))) in
     let pick i = (* i-th row of the product *)
       let rec go i cols = match cols with [] -> [] | c :: rest -> let k = List.length c in List.nth c (i mod k) :: go (i / k) rest in go i cols in
     if total <= cap then Some (List.init total pick)
-    else Some (List.init cap (fun j -> pick ((j * 7919 + j / 3) mod total)))
+    else if List.length cols <= 6 then Some (List.init cap (fun j -> pick ((j * 7919 + j / 3) mod total)))
+    else (* many fields: an independent deterministic choice per field and row *)
+      Some (List.init cap (fun j -> List.mapi (fun ci c -> List.nth c ((j * 7919 + ci * 104729 + j * ci + j / 3) mod List.length c)) cols))
   end
 
 let row_of (l : (string * rval) list) : row = fun f -> List.assoc_opt (string_of_chars f) l
@@ -413,6 +420,22 @@ let check_semantics (x : qobs) input (e : expr) =
        end)
 
 (* ---------------------------------------------------------------------------------------------------------- *)
+(* the tie between Spec/SqlFrag.tr (the token sequence the C02/C03 grammar and semantics theorems are about) and the renderer:
+   PostgreSQL's scanner model on the implementation's inline SQL text gives exactly the tokens tr predicts for the returned tree.
+   Column names over 63 bytes are truncated by the scanner (known finding K9): not compared. *)
+let check_sqltoks (x : qobs) input (e : expr) =
+  let o = x.o in
+  if not (is_bad o.(8)) && eflag o.(8) = "|0" then
+    match tr e, xtext o.(8) with
+    | Some (ts, _), Some sql ->
+        bump "c03.tr"; if side e then bump "c03.tr_and_side";
+        let long_name = exists_node (fun n -> match n with E (VCol c, _, _, _, _) -> List.length c > 63 | _ -> false) e in
+        if not long_name then begin
+          bump "corr.SqlToks";
+          if pg_lex (chars_of_string sql) <> ts then record_mismatch "SqlToks" (input @ [("sql", sql)])
+        end
+    | _ -> ()
+
 let check_single (x : qobs) input =
   let o = x.o in
   (* ---- C01: no panic, no hang, no %! ---- *)
@@ -453,7 +476,7 @@ let check_single (x : qobs) input =
   (match tree with
    | Some t ->
        (match (try Some (parse_tree t) with Unmodelled _ -> None) with
-        | Some e -> check_params x input e; check_derivation x input e;
+        | Some e -> check_params x input e; check_derivation x input e; check_sqltoks x input e;
             (* the meaning of the query text is its parse by the model (Parse of the specification), not the implementation's own tree *)
             check_semantics x input (match x.mtree with Some m -> m | None -> e)
         | None -> ())
@@ -463,10 +486,14 @@ let check_single (x : qobs) input =
         | Some e when exists_node (fun n -> match n with E (VExp (E ((VInt _ | VFloat _), _, _, _, _)), Range, _, _, _) -> true | _ -> false) e -> [("class", "K13")]
         | _ -> [])
     | None -> [] in
-  (if not (is_bad o.(8)) && eflag o.(8) = "|0" then match xtext o.(8) with Some sql -> check_sql "inline" x input sql None kcls | None -> ());
-  (if not (is_bad o.(9)) && eflag o.(9) = "|0" then match xtext o.(9) with
+  let cols_inline = (if not (is_bad o.(8)) && eflag o.(8) = "|0" then match xtext o.(8) with Some sql -> check_sql "inline" x input sql None kcls | None -> None else None) in
+  let cols_param = (if not (is_bad o.(9)) && eflag o.(9) = "|0" then match xtext o.(9) with
      | Some sql -> let ps = params_of o.(9) in check_sql "parameterized" x input sql (Some (if ps = "" then 0 else List.length (String.split_on_char ',' ps))) kcls
-     | None -> ());
+     | None -> None else None) in
+  (* C04: the two renderings name the same set of columns (as PostgreSQL reads the identifiers) *)
+  (match cols_inline, cols_param with
+   | Some a, Some b -> bump "c04.cols"; let a = List.sort_uniq compare a and b = List.sort_uniq compare b in if a <> b then fail "C04" "columns-differ-between-inline-and-parameterized" input ([("inline", String.concat "," a); ("parameterized", String.concat "," b)] @ kcls)
+   | _ -> ());
   (* ---- C16 (last clause): a character that cannot start a token, an unterminated quote or regexp make Parse fail.
      Whether the input has one is decided by the specification's lexer (Model/Lex.v, for which C16's theorems hold), and by
      the implementation's own token stream ---- *)
@@ -576,7 +603,7 @@ let check_pair rel (a : qobs) (b : qobs) =
         nontrivial "C04";
         (* how many pairs meet the premise of C04_sql_text_independent_of_values (Spec/SameKind.sk_e) on the implementation's trees *)
         (match tree_of_parse pa, tree_of_parse pb with
-         | Some ta, Some tb -> if sk_e (parse_tree ta) (parse_tree tb) then bump "c04d.sk_e"
+         | Some ta, Some tb -> if String.length ta < 1000000 && sk_e (parse_tree ta) (parse_tree tb) then bump "c04d.sk_e"
          | _ -> ());
         if xtext sa <> xtext sb then begin
           let cls = if contains a.q "\"*\"" || contains b.q "\"*\"" then [("class", "K6")] else [] in
@@ -676,8 +703,43 @@ let check_rel (x : qobs) input =
        | _ -> ())
   | _ -> ()
 
+(* giant inputs (tag giant=1: value lists of 2^15 .. 2^17 elements): the clauses that can be decided on the observation texts
+   alone, without running the model or the probe-row semantics (which are quadratic in the number of values) *)
+let check_giant (x : qobs) input =
+  let o = x.o in
+  bump "giant.lines";
+  checked "C01";
+  let names = [| "Lex"; "Parse"; "Validate"; "String"; "GoString"; "Render"; "RenderParam"; "Marshal"; "ToPostgres"; "ToParameterizedPostgres" |] in
+  for i = 0 to 9 do
+    if is_bad o.(i) then fail "C01" ("no-panic-no-hang:" ^ names.(i)) input [("observed", o.(i))]
+  done;
+  checked "C10";
+  let p = o.(1) in
+  if not (is_bad p) then begin
+    if tree_of_parse p = None && p <> "nil|1" then fail "C10" "parse-result-shape" input [("observed", String.sub p 0 (min 200 (String.length p)))];
+    if tree_of_parse p <> None then begin nontrivial "C10"; if o.(2) <> "ok" then fail "C10" "returned-tree-fails-Validate" input [] end;
+    (match xtext o.(8) with
+     | Some s -> if not ((s <> "" && eflag o.(8) = "|0") || (s = "" && eflag o.(8) = "|1")) then fail "C10" "ToPostgres-result-shape" input [("observed", String.sub s 0 (min 200 (String.length s))); ("err", eflag o.(8))]
+     | None -> ());
+    (match xtext o.(9) with
+     | Some s -> if eflag o.(9) = "|1" && s <> "" then fail "C10" "ToParameterizedPostgres-sql-with-error" input [("observed", String.sub s 0 (min 200 (String.length s)))]
+     | None -> ())
+  end;
+  (* C04: inline succeeded => parameterized succeeded; as many ? as parameters *)
+  if not (is_bad o.(8)) && not (is_bad o.(9)) && eflag o.(8) = "|0" then begin
+    checked "C04"; nontrivial "C04";
+    if eflag o.(9) <> "|0" then fail "C04" "inline-succeeds-parameterized-fails" input []
+    else match xtext o.(9) with
+      | Some sql ->
+          let (_, n) = number_placeholders sql in
+          let ps = params_of o.(9) in
+          let k = if ps = "" then 0 else List.length (String.split_on_char ',' ps) in
+          if n <> k then fail "C04" "placeholder-count-differs-from-parameter-count" input [("placeholders", string_of_int n); ("parameters", string_of_int k)]
+      | None -> ()
+  end
+
 let check_q (x : qobs) input =
-  check_single x input;
+  if tag_get x.tag "giant" = Some "1" then check_giant x input else check_single x input;
   check_rel x input
 
 let finish_groups () = bump ~by:(Hashtbl.length pending) "groups.unpaired"
